@@ -82,6 +82,31 @@ def evalOpToken : Sx → Option String
       | .ok cs => some ("ok " ++ cavsStr cs)
       | .error e => some ("err:" ++ verrName e)
   | .list [.atom "const", .atom s] => some s
+  | .list [.atom "attest", k, t, .list ds, tr] => do
+    -- what typed lookup (GetCaveats[T] for the attestation types, DangerousUserID) finds in the result
+    let k ← k.bytes?
+    let t ← t.bytes?
+    let ds ← ds.mapM Sx.bytes?
+    let tr ← trust? tr
+    match decode t with
+    | none => some "err:decode"
+    | some m =>
+      match verifyBytes k m ds tr with
+      | .ok cs => some ("ok " ++ cavsStr (getCaveats Cav.isAttestation cs))
+      | .error e => some ("err:" ++ verrName e)
+  | .list [.atom "clear", k, t, .list ds, tr, .list as] => do
+    -- verify, then clear the requests against the returned caveats
+    let k ← k.bytes?
+    let t ← t.bytes?
+    let ds ← ds.mapM Sx.bytes?
+    let tr ← trust? tr
+    let as ← as.mapM access?
+    match decode t with
+    | none => some "err:decode"
+    | some m =>
+      match verifyBytes k m ds tr with
+      | .ok cs => some (if (validate cs as).isEmpty then "permit" else "deny")
+      | .error _ => some "reject"
   | .list [.atom "tok.new", k, kid, loc, rnd] => do
     some (encStr (mint (← k.bytes?) (← kid.bytes?) (← loc.bytes?) (← rnd.bytes?) false))
   | .list [.atom "tok.add", t, .list items] => do
